@@ -382,13 +382,13 @@ func TestVerif_C03_probes(t *testing.T) {
 // obfs4 server handshake (which drains until its own deadline and closes); the handler then sleeps
 // until the real classification deadline. Runs in real time, cases in parallel.
 func TestVerif_C03_obfs4inner(t *testing.T) {
-	rec := vh.NewRec("C03", "obfs4inner", "genuine obfs4 client handshakes (captured from the real client) with one bit flipped in the MAC or the mark/padding, fed in one or two segments; real-time tier (the handler sleeps until the real deadline); non-trivial = the flip is in the MAC (mark found, inner handshake fails); distinct by case")
+	rec := vh.NewRec("C03", "obfs4inner", "genuine obfs4 client handshakes (captured from the real client) with one bit flipped in the MAC or the mark/padding, fed in one or two segments, followed by 0 B - 16 KiB of further bytes in the same burst or in later segments; real-time tier (the handler sleeps until the real deadline); non-trivial = the flip is in the MAC (mark found, inner handshake fails); distinct by case")
 	defer rec.Flush()
 	defer aSilenceStdout()()
 	if vh.ReplayFile() != "" {
 		t.Skip("replay not supported for the real-time tier")
 	}
-	n := vh.Pick(6, 48)
+	n := vh.Pick(24, 192)
 	_, shards := vh.Shard()
 	n = (n + shards - 1) / shards
 	var wg sync.WaitGroup
@@ -423,12 +423,43 @@ func TestVerif_C03_obfs4inner(t *testing.T) {
 			pos = (len(hs)-16)*8 + int(h[0])%(16*8)
 		}
 		hs[pos/8] ^= 1 << uint(pos%8)
+		// what the peer sends after the garbled handshake (a replayed session goes on, a prober pads):
+		// in the same burst, or - the case in which the station has already handed the connection
+		// to the obfs4 server handshake - as segments of their own a little later
+		extra := []int{0, 0, 1, 700, 4000, 8192, 16384 - len(hs)}[int(h[3])%7]
+		hsLen := len(hs)
+		var trailing []byte
+		if extra > 0 {
+			trailing = aPayload(i, extra, "c03-obfs4-extra")
+		}
+		later := extra > 0 && h[4]%3 != 0
+		if !later {
+			hs = append(hs, trailing...)
+		}
 		steps := []vconn.Step{{Data: vh.Hex(hs)}}
 		if h[1]%2 == 0 {
-			k := 1 + int(h[2])%(len(hs)-1)
+			k := 1 + int(h[2])%(hsLen-1)
 			steps = []vconn.Step{{Data: vh.Hex(hs[:k])}, {Data: vh.Hex(hs[k:]), PauseMs: 10}}
 		}
-		c := c03Case{Regs: []aRegSpec{spec}, Kind: "obfs4-flip-" + where, Total: len(hs), Script: vconn.Script{Reads: steps, End: "hold", Remote: "203.0.113.77:5555"}}
+		if later {
+			for lo := 0; lo < len(trailing); lo += 1448 {
+				hi := lo + 1448
+				if hi > len(trailing) {
+					hi = len(trailing)
+				}
+				st := vconn.Step{Data: vh.Hex(trailing[lo:hi])}
+				if lo == 0 {
+					st.PauseMs = int64(5 + int(h[5])%400)
+				}
+				steps = append(steps, st)
+			}
+		}
+		c := c03Case{Regs: []aRegSpec{spec}, Kind: "obfs4-flip-" + where, Total: hsLen + extra, Script: vconn.Script{Reads: steps, End: "hold", Remote: "203.0.113.77:5555"}}
+		if extra > 0 && later {
+			c.Kind += "+trailing-later"
+		} else if extra > 0 {
+			c.Kind += "+trailing"
+		}
 		out[i].c = c
 		wg.Add(1)
 		go func(i int, e *aEnv, c c03Case) {
@@ -440,7 +471,7 @@ func TestVerif_C03_obfs4inner(t *testing.T) {
 	}
 	wg.Wait()
 	for _, r := range out {
-		rec.Case(r.c.Kind == "obfs4-flip-mac", vh.Digest(r.c), r.c, append(r.classes, "kind:"+r.c.Kind)...)
+		rec.Case(strings.HasPrefix(r.c.Kind, "obfs4-flip-mac"), vh.Digest(r.c), r.c, append(r.classes, "kind:"+r.c.Kind)...)
 		if r.key == "harness" {
 			t.Fatalf("harness problem: %s", r.msg)
 		}
